@@ -1,6 +1,7 @@
 package dbsim
 
 import (
+	"os"
 	"errors"
 	"fmt"
 	"strings"
@@ -82,11 +83,16 @@ func (m *modeC) open(ignorePrefixes ...string) error {
 		w.Sched.UsePCT(d, int(w.C.CfgInt("pct_horizon", 300)))
 		if odds := int(w.C.CfgInt("pause_odds", 0)); odds > 0 {
 			w.Sched.PauseOdds = odds
+			w.Sched.PauseBudget = int(w.C.CfgInt("pause_budget", 0))
 			w.Sched.PauseAt = map[string]bool{}
 			for _, site := range []string{"wm.begin.published", "wm.add.window", "wm.add.added", "orc.committs.issued", "orc.committs.begun",
 				"orc.readts.loaded", "orc.readts.clamped", "orc.readts.waited", "commit.batch.formed", "commit.vlog.written", "commit.applied",
-				"txn.commit.written", "orc.donecommit", "db.write.enqueued", "db.write.acked", "client.begin", "client.step"} {
+				"txn.commit.written", "orc.donecommit", "db.write.enqueued", "db.write.acked", "client.begin", "client.step", "lock.pre"} {
 				w.Sched.PauseAt[site] = true
+			}
+			if only := os.Getenv("VERIF_PAUSE_ONLY"); only != "" {
+				w.Sched.PauseAt = map[string]bool{only: true}
+				w.Sched.PauseOdds = 2
 			}
 		}
 	}
